@@ -445,6 +445,19 @@ func (w *world) storeCheck(sig string) {
 	if !w.chain.Canonical(head) || !w.chain.Canonical(tail) {
 		w.c.Violation(sig+"/non-canonical-head-or-tail", fmt.Sprintf("Tail %v Head %v", tail, head), nil)
 	}
+	// one run: nothing is stored outside [Tail, Head] (height index keys in the datastore)
+	for _, k := range w.d.Keys() {
+		name := k[strings.LastIndex(k, "/")+1:]
+		if len(name) == 0 || len(name) > 19 || strings.Trim(name, "0123456789") != "" {
+			continue
+		}
+		var h uint64
+		fmt.Sscanf(name, "%d", &h)
+		if h < tail.Height() || h > head.Height() {
+			w.c.Violation(sig+"/stored-header-outside-chain", fmt.Sprintf("height %d is in the datastore but outside [Tail %d, Head %d]: the store is not one run", h, tail.Height(), head.Height()), nil)
+			break
+		}
+	}
 	for h := tail.Height(); h <= head.Height(); h++ {
 		gctx, gc := context.WithTimeout(context.Background(), 10*time.Millisecond)
 		g, err := w.st.GetByHeight(gctx, h)
